@@ -57,3 +57,13 @@ package standard
 //@ ensures [notinprogress] !old(account in s.generations) ==> result2 != nil
 //@ ensures [others] forall a string :: a != account ==> ((a in s.generations) <==> old(a in s.generations)) && s.generations[a] == old(s.generations[a])
 //@ hint-after getGeneration@1 [ginv] result1 == nil ==> genInv(result0)
+
+// ---- threshold bound (C12 clause i, C14) ----
+
+//@ func (*Service).generate
+//@ func (*Service).generateDistributed
+//@ func (*Service).checkAccess
+
+//@ func (*Service).OnGenerate
+//@ requires s != nil
+//@ ensures [threshold] result2 == nil ==> numParticipants >= 1 && signingThreshold <= numParticipants && 2 * signingThreshold > numParticipants
